@@ -1,4 +1,5 @@
 """Operations the worker can perform on the real otel2puml code (imported lazily)."""
+import os
 import random
 import uuid
 
@@ -69,10 +70,47 @@ def op_learn(case):
     from tel2puml.pv_to_puml.pv_to_puml import pv_to_puml_string
     seed_uuid(case.get("uuid_seed", 0))
     seqs = render_jobs(case["jobs"], case.get("present", {}))
+    seqs = via_files(seqs, case.get("present", {}))
     text = pv_to_puml_string(seqs, case.get("present", {}).get("job_name", "j"))
     if not isinstance(text, str):
         raise ImplError("pv_to_puml_string returned %r" % type(text))
     return {"text": text}
+
+
+def via_files(seqs, present):
+    """presentation through files, loaded by the real pv_files_to_pv_streams: route "job-files" - one JSON array per
+    job; route "event-files" - one JSON object per event, the files of all jobs in one seeded shuffled order, clustered
+    into jobs by the real code (-group-by-job)"""
+    route = present.get("route")
+    if not route:
+        return seqs
+    import json
+    import os
+    import shutil
+    import tempfile
+    from tel2puml.pv_to_puml.pv_to_puml import pv_files_to_pv_streams
+    rnd = random.Random(present.get("pseed", 0) + 5)
+    d = tempfile.mkdtemp(prefix="verif-files-", dir="/dev/shm" if os.path.isdir("/dev/shm") else None)
+    try:
+        files = []
+        if route == "job-files":
+            for k, job in enumerate(seqs):
+                files.append(os.path.join(d, "job%04d.json" % k))
+                with open(files[-1], "w") as fh:
+                    json.dump(job, fh)
+        else:
+            evs = [e for job in seqs for e in job]
+            rnd.shuffle(evs)
+            for k, e in enumerate(evs):
+                files.append(os.path.join(d, "ev%05d.json" % k))
+                with open(files[-1], "w") as fh:
+                    json.dump(e, fh)
+        out = []
+        for _name, jobs in pv_files_to_pv_streams(files, present.get("job_name", "j"), group_by_job_id=(route == "event-files")):
+            out.extend([list(j) for j in jobs])
+        return out
+    finally:
+        shutil.rmtree(d, ignore_errors=True)
 
 
 OPS = {"learn": op_learn}
@@ -89,9 +127,19 @@ def register(name):
     return deco
 
 
+def set_tz(case):
+    """the process's local time zone (POSIX rule string) for cases that ask for one: the conversions are between UTC
+    instants and UTC strings and must not depend on it"""
+    if case.get("tz"):
+        import time
+        os.environ["TZ"] = case["tz"]
+        time.tzset()
+
+
 @register("time_n2p")
 def op_time_n2p(case):
     from tel2puml.utils import unix_nano_to_pv_string
+    set_tz(case)
     out = []
     for x in case["xs"]:
         try:
@@ -105,6 +153,7 @@ def op_time_n2p(case):
 def op_time_p2n(case):
     from tel2puml.pv_to_tel import convert_timestamp_to_unix_nano
     from tel2puml.utils import unix_nano_to_pv_string
+    set_tz(case)
     out = []
     for p in case["ps"]:
         try:
